@@ -2,33 +2,45 @@ From Coq Require Import List Bool.
 Require Import Air.Lock.
 Import ListNotations.
 
-(* inside its critical section the command owns the lock; after it has ensured the password the
-   password is present until it releases; the tick is in its critical section only as owner *)
+(* the full statement "a share is always saved under the password" is REFUTED: the password is
+   checked in one critical section and used in the next; a tick in between clears it *)
+Theorem share_saved_under_password_refuted : exists sched, saved (lrun sched) = [false].
+Proof. exists gap_schedule. reflexivity. Qed.
+
+(* partial: in every schedule in which the tick takes no step in that gap, every share is saved
+   under the password - inside each of its sections the command owns the lock and the tick waits *)
 Definition linv (s : lstate) : Prop :=
-  (match cmd s with C0 => True | _ => lk s = ByCmd end) /\
+  (match cmd s with C1 | C2 | C4 | C5 => lk s = ByCmd | _ => True end) /\
   (match tick s with T0 => True | _ => lk s = ByTick end) /\
-  (match cmd s with C2 | C3 => enc s = true | _ => True end) /\
+  (match cmd s with C2 | C3 | C4 | C5 => enc s = true | _ => True end) /\
   Forall (fun b => b = true) (saved s).
 
 Lemma linv_init : linv linit.
 Proof. repeat split; constructor. Qed.
 
-Lemma linv_step s who : linv s -> linv (lstep s who).
+Lemma linv_step s who :
+  (who || negb (match cmd s with C3 => true | _ => false end)) = true -> linv s -> linv (lstep s who).
 Proof.
   destruct s as [l e c t sv]. unfold linv, lstep. cbn.
-  intros (Hc & Ht & He & Hs).
+  intros Hg (Hc & Ht & He & Hs).
   destruct who, c, t, l; cbn in *; try discriminate; repeat split; try assumption; try reflexivity;
     try (apply Forall_app; split; [assumption|constructor; [assumption|constructor]]).
 Qed.
 
-Theorem share_always_saved_under_password sched : Forall (fun b => b = true) (saved (lrun sched)).
+Theorem share_saved_under_password_partial sched :
+  gapless_from linit sched = true -> Forall (fun b => b = true) (saved (lrun sched)).
 Proof.
-  assert (H : linv (lrun sched)).
-  { unfold lrun. generalize linv_init. generalize linit.
-    induction sched as [|a r IH]; intros s Hs; cbn; [exact Hs|]. apply IH, linv_step, Hs. }
+  unfold lrun, lrun_from. intros Hg.
+  assert (H : linv (fold_left lstep sched linit)).
+  { revert Hg. generalize linv_init. generalize linit.
+    induction sched as [|a r IH]; intros s Hs Hg; cbn [fold_left]; [exact Hs|].
+    cbn [gapless_from] in Hg. apply andb_prop in Hg as [H1 H2]. apply IH; [apply linv_step; assumption|exact H2]. }
   apply H.
 Qed.
 
-(* non-vacuity: a schedule in which the tick fires while the command runs, and a keyring is saved *)
-Example tick_inside_command : saved (lrun [true; false; false; true; true; true; false; false; false]) = [true].
-Proof. reflexivity. Qed.
+(* non-vacuity: a gapless schedule in which the tick fires while the command is in its handler
+   section, and a keyring is saved *)
+Example tick_inside_command :
+  gapless_from linit [true; true; true; true; false; false; true; true; false; false; false] = true /\
+  saved (lrun [true; true; true; true; false; false; true; true; false; false; false]) = [true].
+Proof. split; reflexivity. Qed.
